@@ -116,11 +116,17 @@ DupAmbiguous(ev) ==
      IN \/ ~NoRepeat(IdsOf(ev.msg.carried))
         \/ (CarriedIds(ev.msg) \cap IdSet(seq, tag)) \ OperatedIds(ev.msg) # {}
 
+(* a roReplace replaces the <roCreate> element itself (C04 says what it    *)
+(* becomes); every other root child is un-named                           *)
+MaskRoCreate(ev, root) ==
+  IF ev.msg.cls # "RunningOrderReplace" THEN root
+  ELSE [i \in DOMAIN root |-> IF root[i].tag = "roCreate" THEN [root[i] EXCEPT !.tok = None] ELSE root[i]]
+
 UnnamedOk(ev) ==
   \/ DupAmbiguous(ev) \/ AmbiguousBlank(ev)
   \/ /\ LensKids(ev.post.kids, ev.msg, ev.pre.kids) = LensKids(ev.pre.kids, ev.msg, ev.pre.kids)
-     /\ RootPlain(ev.post) = RootPlain(ev.pre)
-     /\ ev.msg.cls # "RunningOrderEnd" => ev.post.root = ev.pre.root
+     /\ MaskRoCreate(ev, RootPlain(ev.post)) = MaskRoCreate(ev, RootPlain(ev.pre))
+     /\ ev.msg.cls \notin {"RunningOrderEnd", "RunningOrderReplace"} => ev.post.root = ev.pre.root
 
 (* ---------------------------------------------------------------------- *)
 (* C04: carried content arrives intact                                    *)
@@ -143,7 +149,9 @@ CarriedOk(ev, R) ==
             \A i \in DOMAIN ev.msg.carried :
                \/ \E j \in (i+1)..Len(ev.msg.carried) : MdKey(ev.msg.carried[j]) = MdKey(ev.msg.carried[i])
                \/ Arrives(ev.msg.carried[i], ev.post.kids)
-       [] ev.msg.cls = "RunningOrderReplace" -> ev.post.kids = ev.msg.carried
+       [] ev.msg.cls = "RunningOrderReplace" ->
+            /\ ev.post.kids = ev.msg.carried
+            /\ \A i \in DOMAIN ev.post.root : ev.post.root[i].tag = "roCreate" => ev.post.root[i].tok = ev.msg.stok
        [] OTHER -> TRUE
 
 (* ---------------------------------------------------------------------- *)
